@@ -94,6 +94,21 @@ void checkRanges(Ctx& c, const rl::SyntaxTree& ast, const std::string& text, con
     }
   }
   if (rl::FindMinimalNode(ast.Root(), ccl::StrRange{ rootPos.finish + 1, rootPos.finish + 2 }).has_value()) c.fail("C06:findminimal-outside", tag + " FindMinimalNode answered for a range outside the root");
+  // every cursor range [s,f) inside the root: the answer contains the range and none of its children does (= an innermost node).
+  // An empty range [p,p) is the cursor in front of character p: contained in [a,b) iff a <= p < b (StrRange::Contains, C20).
+  auto contains = [](const ccl::StrRange& n, ccl::StrPos s, ccl::StrPos f) { return s == f ? (n.start <= s && s < n.finish) : (n.start <= s && n.finish >= f); };
+  for (ccl::StrPos s = rootPos.start; s <= rootPos.finish; ++s) for (ccl::StrPos f = s; f <= rootPos.finish; ++f) {
+    const ccl::StrRange rng{ s, f };
+    const auto found = rl::FindMinimalNode(ast.Root(), rng);
+    c.rep.count("checks");
+    const std::string rs = "[" + std::to_string(s) + "," + std::to_string(f) + ")";
+    if (!contains(rootPos, s, f)) { if (found.has_value()) c.fail("C06:findminimal-outside", tag + " FindMinimalNode answered for cursor range " + rs + " not inside the root in: " + text); continue; }
+    if (!found.has_value()) { c.fail("C06:findminimal-none", tag + " FindMinimalNode found nothing for cursor range " + rs + " inside the root in: " + text); continue; }
+    auto cur = found.value();
+    bool inner = contains(cur->pos, s, f);
+    for (rl::Index i = 0; inner && i < cur.ChildrenCount(); ++i) if (contains(cur.Child(i)->pos, s, f)) inner = false;
+    if (!inner) c.fail("C06:findminimal-not-innermost", tag + " FindMinimalNode " + rs + " returned [" + std::to_string(cur->pos.start) + "," + std::to_string(cur->pos.finish) + ") which is not an innermost containing node in: " + text);
+  }
 }
 
 std::string optTag(const RenderOpt& o) {
